@@ -152,6 +152,10 @@ func HandlerSeq(a Args) {
 						owned[ck] = true
 					}
 				}
+				// appends to a huge value go beyond any fixed index: every canonical chunk name of the key
+				for _, ck := range chunkfmt.Owned(t, w.Key(k)) {
+					owned[ck] = true
+				}
 				if !v.Present || !v.Complete {
 					continue
 				}
